@@ -519,9 +519,61 @@ def blank_field_probe(ctx):
                 ctx.fail(None, 'hinted evolution (blank text fields): ' + what, rep)
 
 
+def text_after_processing_probe(ctx):
+    """the evolve task renders its text (`evolve --hint`, `--write`) AFTER it has run the mutations through the
+    optimiser: the text is that of the mutations as they were handed in - same hints before and after, and the loaded
+    text has the effect of the original list"""
+    from django.db import models
+    from django_evolution.mutations import AddField, ChangeField, RenameField
+    from django_evolution.mutators import AppMutator
+    spec = {'apps': [{'id': 'vapp', 'models': [
+        {'name': 'Alpha', 'table': 'vapp_alpha', 'unique_together': [], 'index_together': [], 'indexes': [],
+         'constraints': [], 'fields': [{'name': 'id', 'type': 'AutoField', 'attrs': {'primary_key': True}, 'related': None},
+                                       {'name': 'a', 'type': 'IntegerField', 'attrs': {'null': True}, 'related': None}]}]}]}
+    lists = [
+        lambda: [AddField('Alpha', 'added', models.CharField, max_length=20, null=True),
+                 ChangeField('Alpha', 'added', initial='abc', null=False, max_length=50)],
+        lambda: [AddField('Alpha', 'first', models.IntegerField, null=True),
+                 RenameField('Alpha', 'first', 'second', db_column='custom_col')],
+        lambda: [ChangeField('Alpha', 'a', initial=None, db_index=True),
+                 ChangeField('Alpha', 'a', initial=7, null=False)],
+    ]
+    for mk in lists:
+        muts = mk()
+        before = [m.generate_hint() for m in muts]
+        old = dbrig.sig_from_models(dbrig.build_models(spec))
+        rep = {'scenario': 'text rendered after the task processed its mutations', 'hints': before}
+        ctx.count('text_after_processing')
+        ctx.case({'scenario': rep['scenario'], 'hint': before}, nontrivial=True, sample_cap=3)
+        want = simulate(old, mk())
+        try:
+            am = AppMutator(app_label='vapp', project_sig=old.clone(), database_state=dbrig.scan_state('default'),
+                            database='default')
+            am.run_mutations(muts)
+        except Exception as e:
+            ctx.count('text_after_processing:run_failed')
+            rep['run_error'] = '%s: %s' % (type(e).__name__, str(e)[:120])
+        after = [m.generate_hint() for m in muts]
+        text = module_text(muts)
+        rep['text'] = text
+        if after != before:
+            ctx.fail(None, 'after the task processed its mutations their text is no longer the text they were given with: '
+                     '%r became %r' % ([b for b, a in zip(before, after) if a != b][:1], [a for b, a in zip(before, after) if a != b][:1]), rep)
+            continue
+        try:
+            loaded = load_module(text)
+            got = simulate(old, loaded)
+        except Exception as e:
+            ctx.fail(None, 'the text rendered after processing does not load/simulate: %s: %s' % (type(e).__name__, str(e)[:120]), rep)
+            continue
+        if sig_text(got) != sig_text(want):
+            ctx.fail(None, 'the text rendered after processing has another effect than the mutations handed in', rep)
+
+
 def mutation_level(ctx, n_hint, n_direct, wit):
     evorig.setup()
     blank_field_probe(ctx)
+    text_after_processing_probe(ctx)
     done = tries = 0
     while done < n_hint and tries < n_hint * 5 and ctx.time_left() > 30:
         tries += 1
